@@ -294,6 +294,53 @@ def Op.inScope : Op → Prop
 instance : DecidablePred Op.inScope := fun o => by
   cases o <;> simp only [Op.inScope] <;> infer_instance
 
+/-! ### Histories in which the content of `x.bin` is replaced between calls
+
+The acquisition software, a re-run of a pipeline step or the user may write a NEW `x.bin` (same shape, other
+samples) while outputs of earlier calls (`x.cbin`/`x.ch`, `x.cbin_tmp`, `scratch/x.bin`) are still on disk.  Every
+file of the model carries its own content, so a stale output is simply a file whose content belongs to an earlier
+version.  The *current content* of the recording is ghost state: what the last writer of `x.bin` put there — a
+rewrite, or a successful `decompress_file` (with `overwrite=True` it replaces an existing `x.bin` on request). -/
+
+/-- One step of a history: a call of the code under test, or the environment replacing `x.bin`. -/
+inductive Event (α : Type)
+  | call (o : Op)
+  | rewrite (l : List α)
+
+/-- Directory + ghost state: every content `x.bin` ever had (`versions`), and the current one. -/
+structure Hist (α γ : Type) where
+  fs : Fs α γ
+  versions : List (List α)
+  cur : List α
+
+def stepE [DecidableEq α] [DecidableEq γ] (c : Codec α γ) (g : Hist α γ) : Event α → Hist α γ
+  | .rewrite l => { fs := { g.fs with bin := some l }, versions := l :: g.versions, cur := l }
+  | .call o =>
+    let r := step c g.fs o
+    let cur' := match o, r.2.2, r.1.bin with
+      | .decompress _ _ _ _, .ok, some d => d      -- x.bin was (re)written from the compressed file on request
+      | _, _, _ => g.cur
+    { fs := r.1, versions := g.versions, cur := cur' }
+
+def runE [DecidableEq α] [DecidableEq γ] (c : Codec α γ) (g : Hist α γ) : List (Event α) → Hist α γ
+  | [] => g
+  | e :: es => runE c (stepE c g e) es
+
+def Event.inScope : Event α → Prop
+  | .call o => o.inScope
+  | .rewrite _ => True
+
+/-- The invariant of histories with rewrites: `x.bin`, when present, has the current content; every other
+published file is absent or the complete image of SOME version (possibly a stale one); the header describes the
+compressed file; and the CURRENT content is held by a complete file. -/
+structure Versioned (c : Codec α γ) (g : Hist α γ) : Prop where
+  cur_mem : g.cur ∈ g.versions
+  bin : g.fs.bin = none ∨ g.fs.bin = some g.cur
+  cbin : g.fs.cbin = none ∨ ∃ v ∈ g.versions, g.fs.cbin = some (v.map c.enc)
+  hdr : g.fs.cbin.isSome → g.fs.ch = g.fs.cbin
+  sbin : g.fs.sbin = none ∨ ∃ v ∈ g.versions, g.fs.sbin = some v
+  held : g.fs.bin = some g.cur ∨ (g.fs.cbin = some (g.cur.map c.enc) ∧ g.fs.ch = some (g.cur.map c.enc))
+
 /-- A directory holding only the uncompressed recording (and its `.meta`). -/
 def initBin (b : List α) : Fs α γ := { bin := some b }
 
